@@ -250,6 +250,7 @@ MUTANTS = [
 ]
 
 BENIGN = [
+    ("sort-guards-by-ndim-of-argument", [(NV, "def grad_sort(ans, x, axis=-1, kind=\"quicksort\", order=None):\n    # TODO: Cast input with np.asanyarray()\n    if len(x.shape) > 1:", "def grad_sort(ans, x, axis=-1, kind=\"quicksort\", order=None):\n    if anp.ndim(x) > 1:"), (NJ, "def fwd_grad_sort(g, ans, x, axis=-1, kind=\"quicksort\", order=None):\n    if len(x.shape) > 1:", "def fwd_grad_sort(g, ans, x, axis=-1, kind=\"quicksort\", order=None):\n    if anp.ndim(x) > 1:")]),
     ("dict-space-equality-written-out", [(BU, "class DictVSpace(ContainerVSpace):\n    def _values(self, x):", "class DictVSpace(ContainerVSpace):\n    def __eq__(self, other):\n        return type(self) == type(other) and self.shape == other.shape\n\n    def _values(self, x):")]),
     ("dictbox-iter-builtin", [(BU, "    def __iter__(self):\n        return self._value.__iter__()", "    def __iter__(self):\n        return iter(self._value)")]),
     ("trace-warning-under-catch-warnings", [(TR, "            warnings.warn(\"Output seems independent of input.\")", "            with warnings.catch_warnings():\n                warnings.simplefilter(\"always\")\n                warnings.warn(\"Output seems independent of input.\")")]),
